@@ -23,6 +23,9 @@ type Pair struct {
 
 func (p Pair) Sum() int { return p.A + len(p.B) }
 
+// Inc has a pointer receiver.
+func (p *Pair) Inc() int { p.A++; return p.A }
+
 // PairType is the reflect type of Pair.
 var PairType = reflect.TypeOf(Pair{})
 
@@ -415,6 +418,14 @@ func genPackage(t *rapid.T, name string, imports []string, useHost bool, exporte
 	}
 	if useHost {
 		b.WriteString("\tprintln(host.Name, *(&host.Counter))\n")
+		if rapid.Bool().Draw(t, "hostmethods") {
+			// methods of a native type: pointer receiver, method value bound to a copy
+			v := "hp" + prefix
+			fmt.Fprintf(&b, "\t%s := host.Pair{A: %d, B: \"xyz\"}\n", v, rapid.IntRange(0, 9).Draw(t, "hpa"))
+			fmt.Fprintf(&b, "\t%sSum, %sInc := %s.Sum, %s.Inc\n", v, v, v, v)
+			fmt.Fprintf(&b, "\t%s.A += 10\n", v)
+			fmt.Fprintf(&b, "\tprintln(%sSum(), %sInc(), %s.Inc(), (&%s).Sum(), host.Pair.Sum(%s), %s.A)\n", v, v, v, v, v, v)
+		}
 	}
 	for _, it := range items {
 		switch it.kind {
